@@ -19,7 +19,7 @@ Earlies == {"none", "m1", "q", "l", "bin"}
 FlagEarlies == {"none", "m1", "q", "l"}
 Exits == {"0", "1", "255", "kill"}
 Threads == {1, 4}
-PreGlobs == {"none", "sel", "unsel", "negsel", "negunsel", "selz", "unselz", "negunselz", "pairneg", "pairpos"}
+PreGlobs == {"none", "sel", "unsel", "negsel", "negunsel", "selz", "unselz", "negunselz", "pairneg", "pairpos", "pathsel", "pathunsel"}
 Xforms == {"echo", "swap", "fixed", "nothing"}
 Codecs == {"gzip", "bzip2", "xz"}
 \* (timing, tail): the long tail only makes sense for a command that gets to the end of its output
